@@ -1,7 +1,8 @@
 (* C12 - validator updates always lead to the intended, live validator set.
    This file only states the theorems; proofs are in Proofs/. *)
 From Coq Require Import List NArith ZArith Bool Permutation Sorted String Lia.
-From Verif Require Import Lib.Bytes Lib.Assoc Lib.Sorting Model.Powermap Proofs.Powermap.
+From Verif Require Import Lib.Bytes Lib.Assoc Lib.Sorting Model.Powermap Model.App Proofs.Powermap
+     Proofs.AppDet Proofs.AppSafe Proofs.AppVals.
 Import ListNotations.
 Open Scope Z_scope.
 Open Scope string_scope.
@@ -28,4 +29,89 @@ Example C12_diff_apply_nonvacuous :
   = [(hx "01", 0); (hx "02", 10); (hx "03", 30)].
 Proof.
   unfold wf_pm. repeat split; try (repeat constructor; simpl; intuition (try discriminate; try lia)).
+Qed.
+
+(* Histories.  For every genesis with at least one validator and positive powers (what
+   Tendermint's genesis validation enforces), not in dev mode, every call sequence and every
+   map enumeration: folding the validator updates of the EndBlock responses over the genesis
+   set, with the reference Tendermint rule (which fails on duplicates, negative powers,
+   removal of an absent validator and an empty result), never fails and yields at the end of
+   the sequence (hence at every height: take prefixes) exactly the application's validator
+   map. *)
+Theorem C12_fold_is_validators : forall g s0 cs es,
+  init_chain g = Some s0 -> good_genesis g -> g_dev_mode g = false -> (forall j, enum_ok (es j)) ->
+  exists vs, fold_updates (validators s0) (snd (run_enums es 0 s0 cs)) = Some vs /\
+             NoDup (map fst vs) /\
+             forall k, aget vs k = aget (validators (fst (run_enums es 0 s0 cs))) k.
+Proof.
+  intros g s0 cs es Hi Hg Hd He.
+  assert (Hdev : dev_mode s0 = false).
+  { revert Hi. unfold init_chain. destruct (negb (ensure_valid _)); [discriminate|].
+    destruct (negb (forallb _ _)); [discriminate|]. intros [= <-]. exact Hd. }
+  pose proof (init_chain_vals_wf g s0 Hg Hi) as Hw.
+  apply (fold_is_validators cs es 0%nat s0 (validators s0) He Hdev Hw); [apply Hw|intros k; reflexivity].
+Qed.
+Print Assumptions C12_fold_is_validators.
+
+(* That map is the intended one: after every EndBlock it is ten units of power per keyper of
+   the newest config that is started and whose check-in quorum was met, each keyper's share
+   sitting on its registered validator key or, if it has not checked in, on the placeholder
+   key; until such a config exists it is the previous (genesis) map. *)
+Theorem C12_intended_set : forall e s h,
+  let s' := fst (end_block e s h) in
+  validators s' = match effective (configs s') with
+                  | Some c => make_powermap (identities s) (c_keypers c)
+                  | None => validators s
+                  end /\
+  forall ids ks key, pget0 (make_powermap ids ks) key = 10 * count_key ids ks key.
+Proof.
+  intros e s h. split; [|intros; apply make_powermap_spec].
+  unfold end_block. destruct (end_block_configs s None (configs s)) as [cs evs]. simpl.
+  apply current_validators_effective.
+Qed.
+Print Assumptions C12_intended_set.
+
+(* Liveness of the set: in every reachable state, every config whose validators were switched
+   in has at least max(threshold, floor(2n/3)+1) checked-in keypers - more than two thirds of
+   the ten-per-keyper power - and this stays true (check-ins are never removed). *)
+Theorem C12_quorum_two_thirds : forall g s0 cs es c,
+  init_chain g = Some s0 ->
+  let s := fst (run_enums es 0 s0 cs) in
+  In c (configs s) -> c_valupd c = true -> c_keypers c <> [] ->
+  let n := Z.of_nat (List.length (c_keypers c)) in
+  let checked := Z.of_N (count_checked_in (identities s) (c_keypers c)) in
+  Z.of_N (c_threshold c) <= checked /\ 2 * n < 3 * checked.
+Proof.
+  intros g s0 cs es c Hi s Hin Hv Hk n checked.
+  pose proof (run_valupd_ok cs es 0%nat s0 (init_chain_valupd_ok g s0 Hi)) as Hok.
+  unfold valupd_ok in Hok. rewrite Forall_forall in Hok. specialize (Hok c Hin Hv).
+  destruct (num_required_spec c Hk) as [H1 H2]. unfold checked, n. fold s in Hok. lia.
+Qed.
+Print Assumptions C12_quorum_two_thirds.
+
+(* The fork gate: an override height wins over an override eon, which wins over the
+   configured (enabled, height) pair; an empty override disables the fork. *)
+Theorem C12_fork_gate : forall (oh : Z) (oe : option N) (e0 : N) enabled height cur_h cur_e,
+  is_fork_active (Some (Some oh, oe)) enabled height cur_h cur_e = (oh <=? cur_h)%Z /\
+  is_fork_active (Some (None, Some e0)) enabled height cur_h cur_e = (e0 <=? cur_e)%N /\
+  is_fork_active (Some (None, None)) enabled height cur_h cur_e = false /\
+  is_fork_active None enabled height cur_h cur_e = (enabled && (height <=? cur_h)%Z).
+Proof. intros. repeat split; try reflexivity. Qed.
+Print Assumptions C12_fork_gate.
+
+Definition kk (i : N) : bytes := repeat i 20.
+Definition gg : genesis := mkGenesis [kk 1; kk 2] 1 0 false 0 [(repeat 7%N 32, 10)] (hx "63") false.
+Example C12_fold_nonvacuous :
+  exists s0, init_chain gg = Some s0 /\ good_genesis gg /\
+  (* keyper 1 reports block 0 and checks in; config 0 starts and the validators switch *)
+  snd (run enum_id s0 [CDeliver (Tx (kk 1) (hx "63") 1 (PBlockSeen 1));
+                       CDeliver (Tx (kk 1) (hx "63") 2 (PCheckIn (repeat 9%N 32) [] true));
+                       CDeliver (Tx (kk 2) (hx "63") 3 (PCheckIn (repeat 8%N 32) [] true));
+                       CEnd 1]) =
+  [RDeliver 0 []; RDeliver 0 [EvCheckIn (kk 1) []]; RDeliver 0 [EvCheckIn (kk 2) []];
+   REnd [(repeat 7%N 32, 0); (repeat 8%N 32, 10); (repeat 9%N 32, 10)] [EvBatchConfigStarted 0]].
+Proof.
+  eexists. split; [reflexivity|]. split.
+  - split; [discriminate|]. repeat constructor.
+  - vm_compute. reflexivity.
 Qed.
